@@ -29,12 +29,13 @@ func main() {
 	base := flag.String("base", "http", "")
 	value := flag.String("value", "", "")
 	workers := flag.Int("workers", 4, "")
+	levels := flag.Int("levels", 3, "")
 	flag.Parse()
 	w := bufio.NewWriterSize(os.Stdout, 1<<20)
 	defer w.Flush()
 	switch *mode {
 	case "search":
-		st := c04.Search(w, c04.Config{Seed: *seed, Thorough: *thorough, Combos: *combos, Only: *only, Stride: *stride, Workers: *workers})
+		st := c04.Search(w, c04.Config{Seed: *seed, Thorough: *thorough, Combos: *combos, Only: *only, Stride: *stride, Workers: *workers, Levels: *levels})
 		keys := make([]string, 0, len(st))
 		for k := range st {
 			keys = append(keys, k)
